@@ -16,7 +16,7 @@ import os
 import vcommon as V
 import tables_util as T
 
-MODEL_KINDS = {"opl-model", "opl-interp-model", "coerce-model", "coerce-interp-model", "inferred-model", "inferred-interp", "op-interp-model", "var-model", "func-model", "stmt-model", "op-model", "var-wide-model", "func-wide-model", "stmt-wide-model"}
+MODEL_KINDS = {"var-interp-regen", "opl-model", "opl-interp-model", "coerce-model", "coerce-interp-model", "inferred-model", "inferred-interp", "op-interp-model", "var-model", "func-model", "stmt-model", "op-model", "var-wide-model", "func-wide-model", "stmt-wide-model"}
 
 
 def run(ctx):
